@@ -49,11 +49,11 @@ CHECK = {
          "cases": {"quick": 32, "thorough": 400},
          "params": {"mode": "collider", "par": 1, "minLeaves": 10500, "maxLeaves": {"quick": 20000, "thorough": 60000},
                     "pairBudget": 1000000},
-         "case_timeout": 600},
+         "max_workers": 4, "case_timeout": 600},
         {"name": "par-bvh2d", "variant": "tbb", "harness": "c14_spatial.cpp",
          "cases": {"quick": 32, "thorough": 400},
          "params": {"mode": "bvh2d", "par": 1, "maxBoxes": {"quick": 14000, "thorough": 30000}},
-         "case_timeout": 600},
+         "max_workers": 4, "case_timeout": 600},
     ],
     "assumptions": [
         "leaf Morton codes are sorted ascending and boxes permuted with them (the precondition sort.cpp establishes); >= 2 leaves",
